@@ -22,27 +22,6 @@ fn rc(c: &yata::core::Candle) -> rm::RC {
 }
 
 #[derive(Clone)]
-struct VidyaRef {
-	r: rm::Vidya,
-	n: usize,
-	recent: Vec<f64>,
-}
-impl RefAny for VidyaRef {
-	fn next(&mut self, i: &In) -> (Expect, &'static str) {
-		let x = i.v() as f64;
-		self.recent.push(x);
-		if self.recent.len() > self.n + 1 {
-			self.recent.remove(0);
-		}
-		let flat = self.recent.len() == self.n + 1 && self.recent.iter().all(|v| *v == x);
-		let q = rm::RefVV::next(&mut self.r, x);
-		(Expect::Q(q), if flat { "flat-window" } else { "value" })
-	}
-	fn box_clone(&self) -> Box<dyn RefAny> {
-		Box::new(self.clone())
-	}
-}
-#[derive(Clone)]
 struct TrRef(f64);
 impl RefAny for TrRef {
 	fn next(&mut self, i: &In) -> (Expect, &'static str) {
@@ -92,7 +71,7 @@ fn mk_ref(name: &'static str) -> fn(&Params, &In) -> Box<dyn RefAny> {
 			let Params::NN(s, l) = p else { unreachable!() };
 			vv(rm::Tsi::new(*s as usize, *l as usize, i.v() as f64))
 		},
-		"Vidya" => |p, i| Box::new(VidyaRef { r: rm::Vidya::new(n_of(p), i.v() as f64), n: n_of(p), recent: vec![i.v() as f64; n_of(p) + 1] }),
+		"Vidya" => |p, i| Box::new(checks::mrefs::VidyaRef::new(n_of(p), i.v() as f64)),
 		"Integral" => |_, i| vv(rm::Win::new(rm::WinKind::Integral, 0, i.v() as f64)),
 		"TR" => |_, i| {
 			let In::C(c) = i else { unreachable!() };
@@ -209,6 +188,45 @@ fn main() {
 				extra: None,
 		};
 		h.go(&sys, &Limits::depth(if thorough { 8 } else { 6 }).wall_secs(120), true);
+		// tiny units (2^-60): ratios must not depend on the unit of the prices; and long flat tails, on
+		// which the double-smoothed sums decay geometrically towards (but never to) zero
+		let mut small_pairs = vec![];
+		for a in 1..=3 {
+			for b in 1..=3 {
+				small_pairs.push(Params::NN(a, b));
+			}
+		}
+		let tiny = (2.0f64).powi(if IS_F32 { -40 } else { -60 }) as ValueType;
+		let sys = MSys {
+			name: "TSI/depth/tiny-units".into(),
+			spec: spec("TSI"),
+			params: small_pairs.clone(),
+			v0s: vals(&[0.0, tiny]),
+			alphabet: vals(&[0.0, tiny, -3.0 * tiny, 2.0 * tiny]),
+			mk_ref: mk_ref("TSI"),
+			shape: Shape::Free,
+			span: span2,
+			keyed: false,
+			positions: None,
+			check_peek: true,
+			extra: None,
+		};
+		h.go(&sys, &Limits::depth(if thorough { 8 } else { 6 }).wall_secs(120), true);
+		let sys = Flat(MSys {
+			name: "TSI/deviation/long-flat-tail".into(),
+			spec: spec("TSI"),
+			params: small_pairs,
+			v0s: vals(&[1.0]),
+			alphabet: vals(&[1.0, -3.0, 1.7]),
+			mk_ref: mk_ref("TSI"),
+			shape: Shape::Flat,
+			span: |_| 150,
+			keyed: false,
+			positions: Some(|_| vec![0, 1, 2]),
+			check_peek: true,
+			extra: None,
+		});
+		h.go(&sys, &Limits::deviation(2, 320).wall_secs(300), true);
 		let mut pairs = vec![];
 		if thorough {
 			for a in 1..=(maxp - 1).min(254) {
